@@ -17,7 +17,8 @@ Requests for `Model/Tuple.lean` and `Model/SegCompress.lean`:
      `decompress_segment_with_marker`, with the ZSTD result supplied by the caller
 * `seg-frame <marker> <compressed-hex> <raw-hex>` → `ok <metadata> <hex>`   stored-part framing
 -/
-namespace Driver
+namespace Driver.HTuple
+open Driver
 open Ragc.Tuple Ragc.SegCompress
 
 def optBytes (o : Option (List Nat)) : String :=
@@ -84,4 +85,8 @@ def handleTuple : List String → Option String
     some s!"ok {r.2} {toHex r.1}"
   | _ => none
 
+end Driver.HTuple
+
+namespace Driver
+export HTuple (handleTuple)
 end Driver
